@@ -89,6 +89,9 @@ func c15(run *ev.Run, tier string) {
 		if r.P(1, 6) {
 			s.Deb.Arch, s.RPM.Arch, s.APK.Arch, s.IPK.Arch, s.ArchL.Arch = "debarch", "rpmarch", "apkarch", "ipkarch", "archarch"
 		}
+		if r.P(1, 8) {
+			s.Platform = rng.Pick(r, []string{"darwin", "kfreebsd"}) // apk and archlinux refuse it: those builds are skipped
+		}
 		if r.P(1, 5) {
 			// settings that travel in fields of their own, not in the name
 			s.IPK.ABIVersion = rng.Pick(r, []string{"1", "2.0", "17"})
@@ -130,6 +133,11 @@ func c15(run *ev.Run, tier string) {
 			}
 			// package on the SAME settings object, after the name was asked for
 			res := packageInfo(f, info)
+			if s.Platform != "" && (res.Err != nil || res.Panic != "") {
+				if fr := buildYAML(y, f); fr.Err != nil {
+					continue // the format refuses this platform, with or without the name request
+				}
+			}
 			if res.Err != nil || res.Panic != "" {
 				run.Violate("C15/"+f+"/build-error-after-name", map[string]any{"case": i, "error": fmt.Sprint(res.Err, ev.Short(res.Panic, 200))})
 				continue
@@ -179,6 +187,7 @@ func c15(run *ev.Run, tier string) {
 			r := rng.New(uint64(run.Seed)).Fork(uint64(170000 + i))
 			s := mk(r)
 			s.Name = rng.Pick(r, []string{"foo", "app1", "my-pkg"})
+			s.Platform = "" // every format is driven through the tool here
 			y := s.YAML()
 			wd := filepath.Join(dir, fmt.Sprintf("cli%d", i))
 			_ = os.MkdirAll(wd, 0o755)
@@ -286,6 +295,28 @@ func c15(run *ev.Run, tier string) {
 				run.Case(fmt.Sprintf("cli|no-infer|%s|%d", f, i), true)
 				if code != 0 || !isFormat(tgt2, other) {
 					run.Violate("C15/cli/"+f+"/extension-overrides-explicit-packager", map[string]any{"exit": code, "output": ev.Short(out, 300), "given_packager": other})
+				}
+			}
+		}
+	}
+	// (9) an existing directory is a directory target whatever its name looks like
+	if bin := nfpmBin(run); bin != "" {
+		wd := filepath.Join(dir, "cli-dirnames")
+		_ = os.MkdirAll(wd, 0o755)
+		doc := "name: dirnamed\narch: amd64\nversion: 1.0.0\nmaintainer: \"N <n@example.com>\"\ndescription: d\ncontents:\n  - src: " + payload + "\n    dst: /opt/n/a.txt\n"
+		cfgp := filepath.Join(wd, "conf.yaml")
+		_ = os.WriteFile(cfgp, []byte(doc), 0o644)
+		for _, f := range []string{"deb", "rpm", "apk", "ipk"} {
+			for _, dn := range []string{"pool." + f, "repo." + map[string]string{"deb": "rpm", "rpm": "deb", "apk": "ipk", "ipk": "apk"}[f]} {
+				d := filepath.Join(wd, f, dn)
+				_ = os.MkdirAll(d, 0o755)
+				so, se, code, err := runCmd(nil, wd, nil, bin, "package", "-f", cfgp, "-p", f, "-t", d)
+				atomic.AddInt64(&cli, 1)
+				run.Case("cli|directory-named-like-a-package|"+f+"|"+dn, true)
+				es, _ := os.ReadDir(d)
+				fi, serr := os.Stat(d)
+				if err != nil || code != 0 || serr != nil || !fi.IsDir() || len(es) != 1 || !strings.HasSuffix(es[0].Name(), conventionalExt[f]) {
+					run.Violate("C15/cli/"+f+"/directory-target/named-like-a-package-file", map[string]any{"directory": dn, "exit": code, "output": ev.Short(string(so)+string(se), 300), "files_inside": len(es)})
 				}
 			}
 		}
